@@ -1,12 +1,135 @@
-(* C09 -- the instance cache under every line-atomic interleaving: the theorems. *)
+(* C09 -- the instance cache is thread-safe under every line-atomic interleaving: the theorems.
+
+   Model/CacheConc.v: one transition = one source statement of one thread (step);
+   Model/CacheConcSpec.v: the regions, the guard, the invariant Inv, Safe, the full statements.
+
+   The full statements are FALSE for the unchanged code (witnesses below, found by the scheduler on
+   the real code and replayed on the model).  The partial theorems hold for every number of
+   threads, all programs and all schedules whose steps pass `guard`: operations get (hit, miss,
+   missing row, first use of the class), create, expire of a held instance, forgetting a result;
+   no cull triggered; and not the unlocked write of created() while a get of the same id is
+   between its miss under the lock and its put (or has put already). *)
 From Coq Require Import List ZArith Bool Arith String.
 From Gen Require Import CacheConc.
 From Model Require Import CacheConc CacheConcSpec.
-From Proofs Require Import CacheConcSkel.
+From Proofs Require Import CacheConcSkel CacheConcTop.
 Import ListNotations.
 
+(* Tie A-lite inside Coq: every program point of the model is a labelled statement of the tree
+   under test and is treated as the kind of statement the AST says it is *)
 Theorem C09_skeleton_tied : forall p, p <> Idle ->
   exists k, lookup (pc_name p) points = Some k /\ k = pc_kind p.
 Proof. exact (@skeleton_tied). Qed.
 
+(* I1-I5 and the auxiliary clauses, in every state reached through guarded steps *)
+Theorem C09_inv_partial : forall freq frac rows progs s,
+  greach guard (init freq frac rows progs) s -> Inv s.
+Proof. exact (@inv_reachable). Qed.
+
+(* the property-level reading: lock discipline, one object per row and epoch, reachability of the
+   registered object, no exception but the documented not-found *)
+Theorem C09_safe_partial : forall freq frac rows progs s,
+  greach guard (init freq frac rows progs) s -> Safe s.
+Proof. exact (@safe_reachable). Qed.
+
+Theorem C09_quiescent_partial : forall freq frac rows progs s,
+  greach guard (init freq frac rows progs) s -> all_finished s ->
+  s_lock s = None /\
+  (forall t x, result_of s t (RExc x) -> x = NotFound) /\
+  (forall t t' i o o' e, result_of s t (RObj o i e) -> result_of s t' (RObj o' i e) -> o = o') /\
+  (forall t i o, result_of s t (RObj o i (s_epoch s i)) ->
+     dget (s_strong s) i = Some o \/ dget (s_weak s) i = Some o).
+Proof. exact (@quiescent_reachable). Qed.
+
+Theorem C09_no_deadlock_partial : forall freq frac rows progs s,
+  greach guard (init freq frac rows progs) s ->
+  (forall t, t < s_n s -> enabled s t = false) -> all_finished s.
+Proof. exact (@no_deadlock_reachable). Qed.
+
+(* deadlock freedom needs only the invariant, whatever the steps that led there *)
+Theorem C09_no_deadlock_inv : forall s, Inv s ->
+  (forall t, t < s_n s -> enabled s t = false) -> all_finished s.
+Proof. exact (@no_deadlock). Qed.
+
+(* ---- the unguarded statements are false *)
+Theorem C09_inv_full_refuted : ~ C09_inv_full.
+Proof. exact (@inv_full_refuted). Qed.
+
+Theorem C09_quiescent_full_refuted : ~ C09_quiescent_full.
+Proof. exact (@quiescent_full_refuted). Qed.
+
+(* create || get of the id being created: both threads end up holding a live instance of row 4 *)
+Theorem C09_created_vs_get_refuted :
+  match run (init 100 2 [1%Z; 2%Z; 3%Z] [w_setup; [Create]; [Get 4%Z]]) w_get_sched with
+  | Some s => all_finished_b s = true /\ two_objects s = true
+  | None => False
+  end.
+Proof. exact (@created_vs_get_witness). Qed.
+
+(* create || expireAll: RuntimeError in the iteration *)
+Theorem C09_created_vs_expireall_refuted :
+  match run (init 100 2 [1%Z; 2%Z; 3%Z] [w_setup; [Create]; [XAll]]) w_xall_sched with
+  | Some s => all_finished_b s = true /\ bad_exception s = true
+  | None => False
+  end.
+Proof. exact (@created_vs_expireall_witness). Qed.
+
+(* create between expireAll's loop and `self.cache = {}`: the creator's object is lost from the cache *)
+Theorem C09_created_lost_refuted :
+  match run (init 100 2 [1%Z; 2%Z; 3%Z] [w_setup; [Create]; [XAll]]) w_lost_sched with
+  | Some s => all_finished_b s = true /\ lost_object s = true
+  | None => False
+  end.
+Proof. exact (@created_lost_witness). Qed.
+
+(* two sqlmeta.expireAll: RuntimeError in the unlocked iteration of getAll *)
+Theorem C09_getall_refuted :
+  match run (init 100 2 [1%Z; 2%Z; 3%Z] [w_setup; [MExAll]; [MExAll]]) w_mex_sched with
+  | Some s => all_finished_b s = true /\ bad_exception s = true
+  | None => False
+  end.
+Proof. exact (@getall_witness). Qed.
+
+(* ---- non-vacuity: guarded runs that meet every hypothesis *)
+(* two threads miss the same row on first use of the class, thread 2 waits for the lock while
+   thread 1 loads the row: every step passes the guard, both end with the same object *)
+Example C09_nonvacuous_two_misses :
+  match grun (init 100 2 [1%Z; 2%Z] [[]; [Get 1%Z]; [Get 1%Z]])
+             (repeat 1 22 ++ repeat 2 11 ++ repeat 1 8 ++ repeat 2 5) with
+  | Some s => all_finished_b s = true /\ obj_results s = [(1, 0, 1%Z, 0); (2, 0, 1%Z, 0)] /\ s_lock s = None
+  | None => False
+  end.
+Proof. vm_compute. repeat split; reflexivity. Qed.
+
+(* get, expire of the held object by another thread, get again: a new epoch, a new object;
+   a create in between; a get of a missing row *)
+Example C09_nonvacuous_expire_create :
+  match grun (init 100 2 [1%Z; 2%Z] [[Get 1%Z]; [Expire 0 0; Get 1%Z; Get 7%Z]; [Get 1%Z; Create]])
+             (repeat 0 30 ++ repeat 2 8 ++ repeat 1 12 ++ repeat 2 11 ++ repeat 1 56) with
+  | Some s => all_finished_b s = true /\ negb (two_objects s) = true /\ negb (bad_exception s) = true /\
+              Nat.ltb 0 (s_epoch s 1%Z) = true
+  | None => False
+  end.
+Proof. vm_compute. repeat split; reflexivity. Qed.
+
+(* a state in which nobody can run but somebody waits does not satisfy the invariant: the
+   hypothesis of C09_no_deadlock_inv is not vacuous, e.g. after a complete guarded run *)
+Example C09_nonvacuous_quiescent_disabled :
+  match grun (init 100 2 [1%Z] [[Get 1%Z]; [Get 1%Z]]) (repeat 0 30 ++ repeat 1 9) with
+  | Some s => forallb (fun t => negb (enabled s t)) (seq 0 (s_n s)) = true /\ all_finished_b s = true
+  | None => False
+  end.
+Proof. vm_compute. split; reflexivity. Qed.
+
 Print Assumptions C09_skeleton_tied.
+Print Assumptions C09_inv_partial.
+Print Assumptions C09_safe_partial.
+Print Assumptions C09_quiescent_partial.
+Print Assumptions C09_no_deadlock_partial.
+Print Assumptions C09_no_deadlock_inv.
+Print Assumptions C09_inv_full_refuted.
+Print Assumptions C09_quiescent_full_refuted.
+Print Assumptions C09_created_vs_get_refuted.
+Print Assumptions C09_created_vs_expireall_refuted.
+Print Assumptions C09_created_lost_refuted.
+Print Assumptions C09_getall_refuted.
